@@ -142,6 +142,10 @@ type query struct {
 	nullPos string // "" | "addr" | "key" | "class" | "txhash" | "index": that required argument is JSON null
 
 	proofFacts bool // v10: pass response_flags ["INCLUDE_PROOF_FACTS"] (block with txs / receipts, tx by hash / index)
+
+	feeder    *feederSpec // txStatus: what the feeder gateway does for this call (nil: has not received the transaction)
+	submitted bool        // txStatus: the node's submitted-transactions cache holds the hash
+	flags     *flagSpec   // a response_flags argument in this shape, sent to EVERY version (nil: see proofFacts / storageLU)
 }
 
 var rpcName = map[string]string{
@@ -213,6 +217,18 @@ func (q *query) params(version string) any {
 	default:
 		panic("unknown method " + q.method)
 	}
+	if q.flags != nil {
+		// the response_flags family: the argument goes last (its place in the v0.10 tables), on every version
+		for i := range ps {
+			if ps[i].k == "response_flags" {
+				ps = append(ps[:i], ps[i+1:]...)
+				break
+			}
+		}
+		if v, present := q.flags.json(); present {
+			ps = append(ps, kv{"response_flags", v})
+		}
+	}
 	if q.nullPos != "" {
 		key := map[string]string{"addr": "contract_address", "key": "key", "class": "class_hash", "txhash": "transaction_hash", "index": "index"}[q.nullPos]
 		for i := range ps {
@@ -254,7 +270,21 @@ func (q *query) leanLine(version, backend string) string {
 			return s + "null:" + q.method + " " + q.id.lean()
 		}
 	}
+	if q.feeder != nil || q.submitted {
+		f := feederSpec{mode: "says", fin: "notreceived", exec: "none"}
+		if q.feeder != nil {
+			f = *q.feeder
+		}
+		sub := 0
+		if q.submitted {
+			sub = 1
+		}
+		return fmt.Sprintf("q %s %s txStatusF %s %s %d", version, backend, hxv(q.txHash), f.lean(), sub)
+	}
 	s := "q " + version + " " + backend + " " + q.method
+	if q.flags != nil {
+		s = "qf " + q.flags.lean() + " " + version + " " + backend + " " + q.method
+	}
 	switch q.method {
 	case "blockNumber", "blockHashAndNumber":
 	case "blockTxHashes", "blockTxs", "blockReceipts", "txCount":
@@ -298,6 +328,15 @@ func (q *query) kindKey() string {
 	}
 	if q.nullPos != "" {
 		k += "/null-" + q.nullPos
+	}
+	if q.feeder != nil {
+		k += "/feeder-" + q.feeder.lean()
+	}
+	if q.submitted {
+		k += "/submitted"
+	}
+	if q.flags != nil {
+		k += "/flags-" + q.flags.name
 	}
 	return k
 }
@@ -432,6 +471,7 @@ func (w *world) round(r *lib.RNG, pairsPerID, txPerKind int) []*query {
 		case "blockTxs", "blockReceipts", "txByHash", "txByIdx":
 			q.proofFacts = r.Chance(1, 3)
 		}
+		q.fixFlags()
 		qs = append(qs, &q)
 	}
 	add(query{method: "blockNumber"})
@@ -448,6 +488,9 @@ func (w *world) round(r *lib.RNG, pairsPerID, txPerKind int) []*query {
 				for _, a := range u {
 					if r.Chance(1, 3) {
 						q.filter = append(q.filter, a)
+						if r.Chance(1, 4) {
+							q.filter = append(q.filter, a) // the same address twice
+						}
 					}
 				}
 				q.sub = "filtered"
@@ -514,6 +557,68 @@ func (w *world) round(r *lib.RNG, pairsPerID, txPerKind int) []*query {
 	for _, h := range hashes {
 		for _, m := range []string{"txByHash", "receipt", "txStatus"} {
 			add(query{method: m, txHash: h.h, sub: h.kind})
+		}
+	}
+
+	// getTransactionStatus with the feeder gateway saying something: for a hash on the chain (the
+	// gateway must not be asked, let alone believed), one never seen, one reverted off the chain
+	{
+		var subjects []th
+		if len(onchain) > 0 {
+			subjects = append(subjects, th{lib.Pick(r, onchain), "tx-existing"})
+		}
+		subjects = append(subjects, th{*new(felt.Felt).SetBytes(r.Bytes(31)), "tx-missing"})
+		for i := range w.revertedTxs {
+			if !w.txOnChain(&w.revertedTxs[len(w.revertedTxs)-1-i]) {
+				subjects = append(subjects, th{w.revertedTxs[len(w.revertedTxs)-1-i], "tx-reverted"})
+				break
+			}
+		}
+		for _, sj := range subjects {
+			for k := 0; k < 3; k++ {
+				f := feederSpec{mode: "says", fin: lib.Pick(r, feederFins), exec: lib.Pick(r, feederExecs)}
+				add(query{method: "txStatus", txHash: sj.h, sub: sj.kind, feeder: &f})
+			}
+			f := feederSpec{mode: lib.Pick(r, []string{"none", "err"})}
+			add(query{method: "txStatus", txHash: sj.h, sub: sj.kind, feeder: &f})
+		}
+		// the node itself submitted the transaction (fresh hashes: the cache never forgets)
+		add(query{method: "txStatus", txHash: w.freshSubmitHash(), sub: "tx-missing", submitted: true})
+		f := feederSpec{mode: "says", fin: lib.Pick(r, feederFins), exec: lib.Pick(r, feederExecs)}
+		add(query{method: "txStatus", txHash: w.freshSubmitHash(), sub: "tx-missing", submitted: true, feeder: &f})
+		if len(onchain) > 0 && r.Chance(1, 3) {
+			add(query{method: "txStatus", txHash: lib.Pick(r, onchain), sub: "tx-existing", submitted: true})
+		}
+	}
+
+	// the response_flags argument in every shape, on methods that have it and on one that does not
+	{
+		cases := flagCases()
+		fid := &blockID{tag: "latest", kind: "latest"}
+		for _, m := range []string{"storage", "blockTxs", "blockReceipts", "txByIdx", "nonce"} {
+			for k := 0; k < 2; k++ {
+				fc := lib.Pick(r, cases)
+				q := query{method: m, id: lib.Pick(r, ids), flags: &fc, index: 0, sub: "idx-first"}
+				if k == 0 {
+					q.id = fid
+				}
+				switch m {
+				case "storage", "nonce":
+					q.addr, q.key = lib.Pick(r, w.addrUniverse()), lib.Pick(r, w.slotUniverse())
+					if wp := w.writtenPairs(); len(wp) > 0 && r.Bool() {
+						p := lib.Pick(r, wp)
+						q.addr, q.key = p[0], p[1]
+					}
+					q.sub = addrKind(&q.addr)
+				case "blockTxs", "blockReceipts":
+					q.sub = ""
+				}
+				add(q)
+			}
+		}
+		if len(onchain) > 0 {
+			fc := lib.Pick(r, cases)
+			add(query{method: "txByHash", txHash: lib.Pick(r, onchain), sub: "tx-existing", flags: &fc})
 		}
 	}
 
@@ -795,5 +900,109 @@ func (w *world) exhaustive() []*query {
 		add(query{method: m, txHash: felt.Zero, sub: "tx-zero"})
 		add(query{method: m, txHash: *lib.F(0x123456), sub: "tx-missing"})
 	}
+	// every answer the feeder gateway can give x a hash on the chain / never seen / reverted
+	{
+		type th struct {
+			h    felt.Felt
+			kind string
+		}
+		subjects := []th{{*lib.F(0x123457), "tx-missing"}}
+		for _, b := range w.g.Bundles {
+			if len(b.Block.Transactions) > 0 {
+				subjects = append(subjects, th{*b.Block.Transactions[0].Hash(), "tx-existing"})
+				break
+			}
+		}
+		for i := range w.revertedTxs {
+			if !w.txOnChain(&w.revertedTxs[i]) {
+				subjects = append(subjects, th{w.revertedTxs[i], "tx-reverted"})
+				break
+			}
+		}
+		for _, sj := range subjects {
+			for _, fin := range feederFins {
+				for _, ex := range feederExecs {
+					f := feederSpec{mode: "says", fin: fin, exec: ex}
+					add(query{method: "txStatus", txHash: sj.h, sub: sj.kind, feeder: &f})
+				}
+			}
+			for _, mode := range []string{"none", "err"} {
+				f := feederSpec{mode: mode}
+				add(query{method: "txStatus", txHash: sj.h, sub: sj.kind, feeder: &f})
+			}
+		}
+		for _, fin := range feederFins {
+			f := feederSpec{mode: "says", fin: fin, exec: "none"}
+			add(query{method: "txStatus", txHash: w.freshSubmitHash(), sub: "tx-missing", submitted: true, feeder: &f})
+		}
+		for _, mode := range []string{"none", "err"} {
+			f := feederSpec{mode: mode}
+			add(query{method: "txStatus", txHash: w.freshSubmitHash(), sub: "tx-missing", submitted: true, feeder: &f})
+		}
+		add(query{method: "txStatus", txHash: w.freshSubmitHash(), sub: "tx-missing", submitted: true})
+		if len(subjects) > 1 && subjects[1].kind == "tx-existing" {
+			add(query{method: "txStatus", txHash: subjects[1].h, sub: "tx-existing", submitted: true})
+		}
+	}
+	// every shape of response_flags x every method that has the parameter (and two that do not) x
+	// an id that resolves, one that does not, one that is no id
+	{
+		fids := []*blockID{{tag: "latest", kind: "latest"}, {tag: "number", num: 0, kind: "num-existing"},
+			{tag: "hash", hash: *lib.F(0xabcdef), kind: "hash-missing"}, {tag: "str", str: "earliest", kind: "tag-unknown"}}
+		if h == 0 {
+			fids[1].kind = "num-missing"
+		}
+		wp := w.writtenPairs()
+		for _, fc := range flagCases() {
+			fc := fc
+			for _, id := range fids {
+				for _, m := range []string{"blockTxs", "blockReceipts", "txCount"} {
+					add(query{method: m, id: id, flags: &fc})
+				}
+				add(query{method: "txByIdx", id: id, index: 0, sub: "idx-first", flags: &fc})
+				a, k := addrs[len(addrs)-1], slots[0]
+				if len(wp) > 0 {
+					a, k = wp[0][0], wp[0][1]
+				}
+				add(query{method: "storage", id: id, addr: a, key: k, sub: addrKind(&a), flags: &fc})
+				add(query{method: "nonce", id: id, addr: a, sub: addrKind(&a), flags: &fc})
+			}
+			for _, b := range w.g.Bundles {
+				if len(b.Block.Transactions) > 0 {
+					add(query{method: "txByHash", txHash: *b.Block.Transactions[0].Hash(), sub: "tx-existing", flags: &fc})
+					break
+				}
+			}
+			add(query{method: "txByHash", txHash: *lib.F(0x123456), sub: "tx-missing", flags: &fc})
+			add(query{method: "receipt", txHash: *lib.F(0x123456), sub: "tx-missing", flags: &fc})
+		}
+	}
+	for _, q := range qs {
+		q.fixFlags()
+	}
 	return qs
+}
+
+// fixFlags: a query of the response_flags family says itself whether INCLUDE_PROOF_FACTS is on (the
+// deep comparison of the payload needs to know).
+func (q *query) fixFlags() {
+	if q.flags == nil {
+		return
+	}
+	q.proofFacts = false
+	if q.flags.kind == "list" && len(q.flags.list) > 0 {
+		q.proofFacts = true
+		for _, f := range q.flags.list {
+			if f != flagPF {
+				q.proofFacts = false
+			}
+		}
+	}
+}
+
+// freshSubmitHash: a transaction hash nothing else uses (the submitted-transactions cache of a
+// node cannot be made to forget a hash).
+func (w *world) freshSubmitHash() felt.Felt {
+	w.submitSeq++
+	return *lib.F(0x5ab0000000 + w.submitSeq)
 }
